@@ -281,7 +281,16 @@ func runRedef(c *Ctx) {
 			var supplied ssa.Value
 			p.RegionInstrs(planner, func(in ssa.Instruction) {
 				if mu, ok := in.(*ssa.MapUpdate); ok {
-					if id, ok := mu.Key.(*ssa.Call); ok && core.CalleeName(id.Common()) == core.GVertexID {
+					// the key is VertexID(v), possibly narrowed to its concrete type first (`id, ok := VertexID(v).(string)`)
+					kv := core.Strip(mu.Key)
+					if e, isE := kv.(*ssa.Extract); isE {
+						if ta, isT := e.Tuple.(*ssa.TypeAssert); isT {
+							kv = ta.X
+						}
+					} else if ta, isT := kv.(*ssa.TypeAssert); isT {
+						kv = ta.X
+					}
+					if id, ok := kv.(*ssa.Call); ok && core.CalleeName(id.Common()) == core.GVertexID {
 						root := core.Root(id.Common().Args[0])
 						if prm, isPrm := root.(*ssa.Parameter); isPrm {
 							root = p.Bind(prm) // the list handed to a private step of the planner
@@ -316,6 +325,15 @@ func runRedef(c *Ctx) {
 				for _, l := range lits {
 					if l.Kind == "ok" && l.Pol {
 						if ta, ok := l.Of.(*ssa.TypeAssert); ok {
+							// the required inputs visited through a list of their keys (collected from the input set, e.g. to sort
+							// them): `for _, k := range keys { v := state.InputSet[k]; … }`
+							if lk, isLk := ta.X.(*ssa.Lookup); isLk {
+								if fr, ok := core.AsFieldLoad(p.Bind(lk.X)); ok && fr.Owner == "callState" && c.keyOfInputSet(lk.Index, fr) {
+									inLoop = true
+									fieldKinds[core.NamedOf(ta.AssertedType)] = true
+									loopKey = core.Strip(lk.Index)
+								}
+							}
 							if e, ok := ta.X.(*ssa.Extract); ok {
 								if nx, ok := e.Tuple.(*ssa.Next); ok {
 									if rg, ok := nx.Iter.(*ssa.Range); ok {
@@ -341,7 +359,7 @@ func runRedef(c *Ctx) {
 				excluded := false
 				for _, l := range lits {
 					if l.Kind == "ok" && !l.Pol {
-						if lk, ok := l.Of.(*ssa.Lookup); ok && supplied != nil && p.Bind(lk.X) == supplied && lk.Index == loopKey {
+						if lk, ok := l.Of.(*ssa.Lookup); ok && supplied != nil && p.Bind(lk.X) == supplied && (lk.Index == loopKey || core.Strip(lk.Index) == loopKey) {
 							excluded = true
 						}
 					}
@@ -728,7 +746,7 @@ func runRedef(c *Ctx) {
 						if core.CalleeName(x.Common()) == "builtin.append" {
 							wt(x.Common().Args[0], d+1)
 							for _, e := range appendedValues(x) {
-								if ld, ok := e.(*ssa.UnOp); !ok || !strings.Contains(core.Path(ld), "errType") {
+								if ld, ok := e.(*ssa.UnOp); !ok || !p.IsErrTypeGlobal(ld) {
 									okT, whyT = false, "a result type other than the error type is appended: "+core.Path(e)
 								}
 							}
@@ -973,4 +991,51 @@ func derivesFromCall(v ssa.Value, callee string) bool {
 		}
 	}
 	return false
+}
+
+// keyOfInputSet: k is an element of a slice every element of which was taken from the keys of a range over the same
+// field of the resolution state (possibly narrowed by a type assertion).
+func (c *Ctx) keyOfInputSet(k ssa.Value, field core.FieldRef) bool {
+	p := c.P
+	ld, ok := core.Strip(k).(*ssa.UnOp)
+	if !ok {
+		return false
+	}
+	ia, ok := ld.X.(*ssa.IndexAddr)
+	if !ok {
+		return false
+	}
+	okAll, n := true, 0
+	var fromKeys func(v ssa.Value, d int) bool
+	fromKeys = func(v ssa.Value, d int) bool {
+		if v == nil || d > 6 {
+			return false
+		}
+		switch x := core.Strip(v).(type) {
+		case *ssa.Extract:
+			if ta, ok := x.Tuple.(*ssa.TypeAssert); ok {
+				return fromKeys(ta.X, d+1)
+			}
+			if nx, ok := x.Tuple.(*ssa.Next); ok && x.Index == 1 {
+				if rg, ok := nx.Iter.(*ssa.Range); ok {
+					if fr, ok := core.AsFieldLoad(p.Bind(rg.X)); ok && fr.Owner == field.Owner && fr.Field == field.Field {
+						return true
+					}
+				}
+			}
+		case *ssa.TypeAssert:
+			return fromKeys(x.X, d+1)
+		}
+		return false
+	}
+	f := ld.Parent()
+	for _, ap := range appendSites(f, ia.X) {
+		for _, e := range appendedValues(ap) {
+			n++
+			if !fromKeys(e, 0) {
+				okAll = false
+			}
+		}
+	}
+	return okAll && n > 0
 }
